@@ -46,6 +46,10 @@ type ChunkIterators struct {
 	estimateSize  int
 	maxN          int
 
+	// fileOrder: chunks of the same series are taken in the order of their files (sequence, extent) instead of the
+	// order of their first timestamps (files whose time ranges overlap: merge of out-of-order files)
+	fileOrder bool
+
 	log *Log.Logger
 }
 
@@ -89,6 +93,17 @@ func (c *ChunkIterators) Less(i, j int) bool {
 	jID := c.itrs[j].id
 	if iID != jID {
 		return iID < jID
+	}
+
+	if c.fileOrder {
+		// out-of-order files overlap in time: the rows of a series are appended file by file, oldest file first, so that
+		// the sort and de-duplication that follows keeps the newest value of every timestamp
+		_, iSeq := c.itrs[i].r.LevelAndSequence()
+		_, jSeq := c.itrs[j].r.LevelAndSequence()
+		if iSeq != jSeq {
+			return iSeq < jSeq
+		}
+		return c.itrs[i].r.FileNameExtend() < c.itrs[j].r.FileNameExtend()
 	}
 
 	return c.itrs[i].merge.MinTime(true) < c.itrs[j].merge.MinTime(true)
